@@ -5,6 +5,7 @@ import itertools
 
 from hypothesis import strategies as st
 
+from ..doubles import forwarding
 from ..runner import Shard, Violation
 from ..core import expect_return
 from ..driver import Ctx, run, loop_mode, close_orphans
@@ -286,6 +287,8 @@ PROGRAM_FLAVOURS = {
     "object": _CallableObject,
     "method": lambda fn: _Holder(fn).method,
     "lambda": lambda fn: (lambda *args, **kwargs: fn(*args, **kwargs)),
+    # what it returns is a complete asynchronous generator, but not a native one (no ag_frame)
+    "forwarding": forwarding,
 }
 
 
